@@ -1,3 +1,4 @@
+import Rp2.Proofs.ReportLinks
 import Rp2.Proofs.ReportProps
 /-! # C19 — hyperlinks in the full report lead to the row of the same transaction -/
 namespace Rp2.C19
@@ -5,4 +6,13 @@ open Rp2
 theorem links_lead_to_own_row (ins outs intras : List Int) (hnd : (ins ++ outs ++ intras).Nodup) :
     (∀ p ∈ written ins outs intras, linkOf (written ins outs intras) p.1 = some p.2) ∧
     (∀ id, id ∉ ins ++ outs ++ intras → linkOf (written ins outs intras) id = none) := C19_tx_links ins outs intras hnd
+/-- **on the full-report model** (`layoutAsset`, repaired): the dictionary used for an asset's links is built from that asset's
+    own In-Out rows only … -/
+theorem model_dictionary_is_per_asset (holderOf : Nat → String) (period : Int) (st : GenState) (c : Computed) :
+    (layoutAsset true holderOf period st c).state.txRow = txRowFrom [] c := layout_txRow holderOf period st c
+/-- … and it sends every shown transaction to the row it was written at, every hidden one to no link
+    (the link cells of the detail table are look-ups in this dictionary) -/
+theorem model_links_lead_to_own_row (c : Computed) (hnd : ((shownRows c).map (·.1)).Nodup) :
+    (∀ p ∈ shownRows c, lookupI p.1 (txRowFrom [] c) = some p.2) ∧
+    (∀ id, id ∉ (shownRows c).map (·.1) → lookupI id (txRowFrom [] c) = none) := txRow_spec c hnd
 end Rp2.C19
